@@ -1,6 +1,6 @@
 (* C13 — names map to distinct datapath registers with a stable built-in ABI.
    Statements only; proofs live in Portus.Lang.ScopeFacts. *)
-From Portus Require Import Image ScopeFacts TablesTie.
+From Portus Require Import Image ScopeFacts TablesTie OverrideFacts SimProg.
 From PortusGen Require Import LangTables.
 
 (* [reports] / [controls] are the declarations in the order Prog::new_with_scope registers them
@@ -58,6 +58,46 @@ Example C13_example :
   end.
 Proof. vm_compute. repeat split; reflexivity. Qed.
 
+(* compile-time overrides (lang::compile's update loop): a report, control or local variable
+   carries the LAST value supplied for it as its initial value, in the register (class, slot,
+   volatility) it had; an override of any other name is ignored; no other name changes *)
+Theorem C13_overrides : forall ups sc x,
+  sc_get (sc_named (apply_updates ups sc)) x =
+  match sc_get (sc_named sc) x with
+  | Some r => match last_update ups x with
+              | Some v => if updatable r then Some (retype r (TNum (Some v))) else Some r
+              | None => Some r
+              end
+  | None => None
+  end.
+Proof. exact apply_updates_get. Qed.
+Print Assumptions C13_overrides.
+
+Theorem C13_overrides_allocate_nothing : forall ups sc,
+  sc_nperm (apply_updates ups sc) = sc_nperm sc /\ sc_nctl (apply_updates ups sc) = sc_nctl sc /\
+  sc_nloc (apply_updates ups sc) = sc_nloc sc /\ sc_ntmp (apply_updates ups sc) = sc_ntmp sc.
+Proof. exact apply_updates_counters. Qed.
+Print Assumptions C13_overrides_allocate_nothing.
+
+(* the scope's mapping is the one the emitted instructions use: through the lowering of all the
+   events a name keeps the datapath register (class and index) it was given; only the recorded
+   type of a fresh local is filled in *)
+Theorem C13_names_keep_their_registers : forall evs sc idx devs is sc',
+  compile_events evs sc idx = Ok (devs, is, sc') ->
+  forall x r, sc_get (sc_named sc) x = Some r -> exists r', sc_get (sc_named sc') x = Some r' /\ dreg_of r' = dreg_of r.
+Proof. exact compile_events_mono. Qed.
+Print Assumptions C13_names_keep_their_registers.
+
+Example C13_example_override :
+  match compile_and_serialize (lit "(def (c 7) (Report (volatile a 1)))  (when true (report))") [(lit "c", 9); (lit "Report.a", 3); (lit "c", 11); (lit "Cwnd", 5)] with
+  | inl (Ok (_, sc)) =>
+    sc_get (sc_named sc) (lit "c") = Some (Control 0 (TNum (Some 11)) false) /\
+    sc_get (sc_named sc) (lit "Report.a") = Some (Report 0 (TNum (Some 3)) true) /\
+    sc_get (sc_named sc) (lit "Cwnd") = Some (Implicit 4 (TNum None))
+  | _ => False
+  end.
+Proof. vm_compute. repeat split; reflexivity. Qed.
+
 (* translator obligation (lib/gen_langtables.py reads Scope::new from src/lang/datapath.rs on every
    run): inserting the source's built-in rows in the source's order gives the model's initial
    scope, whose indices the theorems above fix *)
@@ -65,3 +105,19 @@ Theorem C13_source_builtin_table_is_the_models :
   fold_left (fun l kv => rf_insert l (fst kv) (snd kv)) impl_builtins [] = sc_named scope_new.
 Proof. exact builtins_tie. Qed.
 Print Assumptions C13_source_builtin_table_is_the_models.
+
+(* translator obligations (lib/gen_statespace.py reads the structs, statics and mutable bindings of the
+   modelled code on every run): the code has the state the model represents and no other *)
+From Portus Require Import StateTie.
+From PortusGen Require Import StateSpace.
+From Coq Require Import String.
+Open Scope string_scope.
+Theorem C13_source_scope_state : impl_fields_Scope = model_fields_Scope.
+Proof. exact fields_Scope_tie. Qed.
+Print Assumptions C13_source_scope_state.
+Theorem C13_source_regfile_state : impl_fields_RegFile = model_fields_RegFile.
+Proof. exact fields_RegFile_tie. Qed.
+Print Assumptions C13_source_regfile_state.
+Theorem C13_source_shared_state_datapath : nth 6 impl_shared_state_tokens "" = "src/lang/datapath.rs: AtomicU32".
+Proof. exact shared_state_lang_datapath. Qed.
+Print Assumptions C13_source_shared_state_datapath.
